@@ -68,6 +68,7 @@ public:
     bool isBaseUnitWithHistory(History &history, const UnitsConstPtr &units) const;
 
     bool performTestWithHistory(History &history, const UnitsConstPtr &units, TestType type) const;
+    bool performTestWithHistory(History &history, const UnitsConstPtr &units, TestType type, std::vector<const Units *> &unitsBeingTested) const;
 
     Units *mUnits = nullptr;
 };
